@@ -136,7 +136,13 @@ def ip_to_int(s):
     return (a << 24) | (b << 16) | (c << 8) | d
 
 
-def gen_ippat(rng, addrs):
+ADDRS6 = ["2001:db8::1", "::1", "fe80::aa:1", "2001:db8:0:1::7"]
+IPPATS6 = ["2001:db8::1", "::1", "2001:db8::/32", "fe80::/10", "2001:db8::1-2001:db8::ffff", "::/0"]
+
+
+def gen_ippat(rng, addrs, v6=0.0):
+    if rng.random() < v6:
+        return rng.choice(IPPATS6), "IPOut"
     a = rng.choice(addrs)
     k = rng.randrange(3)
     if k == 0:
@@ -253,7 +259,7 @@ class JV:
         elif isinstance(v, list):
             items = [JV(rng, x) for x in v]
             self.text = "[" + ",".join(i.text for i in items) + "]"
-            plain = [unnum(x) for x in v]
+            plain = unnum(v)
             self.render = B(compact(plain))
             self.coq = "(JArr %s %s %s)" % (clist(i.coq for i in items), cbytes(B(self.text)), cbytes(self.render))
         elif isinstance(v, dict):
@@ -264,7 +270,7 @@ class JV:
                 sep, col = ",", ":"
             self.text = "{" + sep.join(jrender_str(rng, k) + (col if not isinstance(x.v, (list, dict)) else ":") + x.text for k, x in items) + "}"
             self.items = items
-            self.render = B(compact({k: unnum(x) for k, x in v.items()}))
+            self.render = B(compact(unnum(v)))
             self.coq = "(JObj %s %s %s)" % (clist("(%s,%s)" % (cbytes(B(k)), x.coq) for k, x in items), cbytes(B(self.text)), cbytes(self.render))
 
 
@@ -273,15 +279,16 @@ def unnum(x):
         r = x[2]
         return int(r) if pyre.fullmatch(r"-?\d+", r) else float(r)
     if isinstance(x, list):
-        return [unnum(y) for y in x]
+        return [unnum(y) for y in x if y is not None]          # null elements / members are skipped by parseValue
     if isinstance(x, dict):
-        return {k: unnum(v) for k, v in x.items()}
+        return {k: unnum(v) for k, v in x.items() if v is not None}
     return x
 
 
 NUMS = [("num", "0", "0"), ("num", "7", "7"), ("num", "-3", "-3"), ("num", "42", "42"), ("num", "1.5", "1.5"), ("num", "2.50", "2.5"),
         ("num", "0.25", "0.25"), ("num", "100", "100"), ("num", "12345678901", "12345678901"), ("num", "-0.5", "-0.5"),
-        ("num", "12345678901234567890", "12345678901234567890"), ("num", "-9223372036854775808", "-9223372036854775808")]
+        ("num", "12345678901234567890", "12345678901234567890"), ("num", "-9223372036854775808", "-9223372036854775808"),
+        ("num", "9007199254740993", "9007199254740993"), ("num", "-9007199254740993", "-9007199254740993"), ("num", "9223372036854775807", "9223372036854775807")]
 JKEYS = ["level", "msg", "status", "app", "n", "dur", "user.name", "http-status", "9lives", "a b", "é", "nested", "list", "size", "addr"]
 SVALS = ["info", "error", "warn", "", "GET /a", "a=b", 'q"uote', "back\\slash", "5", "5.5", "1m30s", "250ms", "5KB", "10.0.0.1", "ünï", "x y z", "new\nline"]
 
@@ -306,11 +313,11 @@ def gen_jdoc(rng, nested=True):
     for _ in range(n):
         k = rng.choice(JKEYS)
         if nested and k == "nested":
-            v = {rng.choice(["a", "b", "k"]): rng.choice(["x", ("num", "1", "1"), True, "y z"]) for _ in range(rng.randint(0, 2))}
+            v = {rng.choice(["a", "b", "k"]): rng.choice(["x", ("num", "1", "1"), True, "y z", None]) for _ in range(rng.randint(0, 2))}
             if rng.random() < 0.3:
                 v["deep"] = {"z": rng.choice(["w", ("num", "9", "9")])}
         elif nested and k == "list":
-            v = [rng.choice(["p", ("num", "2", "2"), False, "q"]) for _ in range(rng.randint(0, 3))]
+            v = [rng.choice(["p", ("num", "2", "2"), False, "q", None, ("num", "9007199254740993", "9007199254740993")]) for _ in range(rng.randint(0, 3))]
         else:
             v = gen_jscalar(rng)
         pairs.append((k, v))
@@ -499,10 +506,10 @@ class EGen:
             return dict(s, op=op, coq="ELineIP %s %s" % (cbool(op == "!="), s["pat_coq"]))
         return dict(s, op=op, coq="ELine %s" % sm_coq(op, s["v"], s.get("rx")))
 
-    def ip_line_filter(self):
+    def ip_line_filter(self, v6=0.0):
         rng = self.rng
         op = rng.choice(["=", "!="])
-        txt, coq = gen_ippat(rng, ADDRS)
+        txt, coq = gen_ippat(rng, ADDRS, v6)
         return {"k": "line", "op": op, "v": txt, "ip": True, "pat_coq": coq, "coq": "ELineIP %s %s" % (cbool(op == "!="), coq)}
 
     def pred_leaf(self, labels):
